@@ -1,17 +1,71 @@
+// Package exec is the drop-in replacement for "os/exec" inside the
+// instrumented copy: commands run on the simulated shell.
 package exec
 
 import (
+	"bytes"
+	"errors"
+	"io"
+	"strconv"
 	"strings"
 
 	"verif/simrt"
 )
 
-type ExitError = simrt.ExitError
+var ErrNotFound = errors.New("executable file not found in $PATH")
+
+// ProcessState mirrors os.ProcessState for the parts code can observe.
+type ProcessState struct {
+	code   int
+	signal string
+}
+
+func (p *ProcessState) ExitCode() int {
+	if p == nil {
+		return -1
+	}
+	if p.signal != "" {
+		return -1
+	}
+	return p.code
+}
+func (p *ProcessState) Success() bool { return p != nil && p.signal == "" && p.code == 0 }
+func (p *ProcessState) Exited() bool  { return p != nil && p.signal == "" }
+func (p *ProcessState) Pid() int      { return 4243 }
+func (p *ProcessState) String() string {
+	if p == nil {
+		return "<nil>"
+	}
+	if p.signal != "" {
+		return "signal: " + p.signal
+	}
+	return "exit status " + strconv.Itoa(p.code)
+}
+
+type ExitError struct {
+	*ProcessState
+	Stderr []byte
+}
+
+func (e *ExitError) Error() string { return e.ProcessState.String() }
+
+type Process struct{ Pid int }
+
+func (p *Process) Kill() error { return nil }
 
 type Cmd struct {
-	Path string
-	Args []string
-	Dir  string
+	Path         string
+	Args         []string
+	Env          []string
+	Dir          string
+	Stdin        io.Reader
+	Stdout       io.Writer
+	Stderr       io.Writer
+	ProcessState *ProcessState
+	Process      *Process
+	started      bool
+	out          []byte
+	err          error
 }
 
 func Command(name string, arg ...string) *Cmd {
@@ -19,6 +73,8 @@ func Command(name string, arg ...string) *Cmd {
 }
 
 func LookPath(file string) (string, error) { return "/usr/bin/" + file, nil }
+
+func (c *Cmd) String() string { return strings.Join(c.Args, " ") }
 
 func (c *Cmd) script() string {
 	b := c.Path
@@ -28,13 +84,74 @@ func (c *Cmd) script() string {
 	if (b == "bash" || b == "sh") && len(c.Args) == 3 && (c.Args[1] == "-c" || c.Args[1] == "-lc") {
 		return c.Args[2]
 	}
+	if b != "bash" && b != "sh" {
+		// a command started directly: the mini shell knows a few
+		return strings.Join(c.Args, " ")
+	}
 	simrt.S.HarnessFail("exec of " + strings.Join(c.Args, " ") + " is not modelled")
 	return ""
 }
 
-func (c *Cmd) CombinedOutput() ([]byte, error) { return simrt.S.Shell.Exec(c.script()) }
-func (c *Cmd) Output() ([]byte, error)         { return simrt.S.Shell.Exec(c.script()) }
+func (c *Cmd) exec() ([]byte, error) {
+	if c.Dir != "" {
+		simrt.S.HarnessFail("exec with Cmd.Dir is not modelled")
+	}
+	out, err := simrt.S.Shell.Exec(c.script())
+	c.ProcessState = &ProcessState{}
+	if ee, ok := err.(*simrt.ExitError); ok {
+		c.ProcessState = &ProcessState{code: ee.Code, signal: ee.Signal}
+		return out, &ExitError{ProcessState: c.ProcessState}
+	}
+	return out, err
+}
+
+func (c *Cmd) CombinedOutput() ([]byte, error) {
+	if c.Stdout != nil || c.Stderr != nil {
+		return nil, errors.New("exec: Stdout already set")
+	}
+	return c.exec()
+}
+
+func (c *Cmd) Output() ([]byte, error) {
+	if c.Stdout != nil {
+		return nil, errors.New("exec: Stdout already set")
+	}
+	out, err := c.exec()
+	if ee, ok := err.(*ExitError); ok {
+		ee.Stderr = out
+	}
+	return out, err
+}
+
 func (c *Cmd) Run() error {
-	_, err := simrt.S.Shell.Exec(c.script())
+	out, err := c.exec()
+	c.deliver(out)
 	return err
 }
+
+// Start runs the command to completion at once (the simulated command is
+// executed as micro-steps of the calling goroutine); Wait reports the result.
+func (c *Cmd) Start() error {
+	c.started = true
+	c.Process = &Process{Pid: 4243}
+	c.out, c.err = c.exec()
+	c.deliver(c.out)
+	return nil
+}
+
+func (c *Cmd) Wait() error {
+	if !c.started {
+		return errors.New("exec: not started")
+	}
+	return c.err
+}
+
+func (c *Cmd) deliver(out []byte) {
+	if c.Stdout != nil {
+		c.Stdout.Write(out)
+	} else if c.Stderr != nil {
+		c.Stderr.Write(out)
+	}
+}
+
+var _ = bytes.NewBuffer
